@@ -42,6 +42,13 @@ def run(chk):
     for tag, res in (("reader", a), ("reader-small-buffer", b)):
         for e, txt in res["findings"][:3]:
             chk.report("framing:%s:%s" % (tag, e.get("op")), "real multiLineReader step differs from Framing (%s): %s" % (tag, json.dumps(e)[:600]), {"event.json": e})
+    # (b) the record-start test the listener gives the reader (syslogprotocol.TestRecordStart) against Syslog!RecordStart,
+    # and that it recognises the first line of every well-formed record
+    rs = fncommon.run_fn(chk, "sy", "SyslogTrace", "SyslogTrace.cfg", tag="-rs", max_findings_per_shard=2)
+    for e, txt in rs["findings"][:1]:
+        line = bytes(e["in"]).decode("latin1")
+        chk.report("framing:record-start", "record-start test on line %r answers %s; Syslog!RecordStart / the parser's own verdict (%s) disagree" % (line[:120], e.get("start"), e.get("res")), {"event.json": e})
+    cov["record_start_cases"] = rs["cases"]
     # (c) listener level over real TCP
     rnd = random.Random(chk.seed)
     scripts = listener_scripts(rnd, 400 if thorough else 64)
